@@ -34,7 +34,7 @@ spec fn runs_of(l: Level) -> Seq<Run> { Seq::new(l.0.runs@.len(), |i: int| *l.0.
 /// `level.runs.iter().map(|run| { let mut run = run.deref().clone(); run.retain(|x| !old_ids.contains(&x.metadata.id)); run }).filter(|x| !x.is_empty()).collect::<Vec<_>>()`
 uninterp spec fn without_ids(runs: Seq<Run>, ids: Seq<TableId>) -> Seq<Run>;
 #[verifier::external_body] fn runs_without(l: &Level, old_ids: &[TableId]) -> (r: Vec<Run>) ensures r@ == without_ids(runs_of(*l), old_ids@) { unimplemented!() }
-/// `self.levels.iter().enumerate()`
+/// `self.inner.levels.iter().enumerate()`
 #[verifier::external_body]
 fn enumerate_levels(v: &Vec<Level>) -> (r: SeqIter<(usize, &Level)>)
     ensures r.rest().len() == v@.len(), forall|i: int| 0 <= i < v@.len() ==> (#[trigger] r.rest()[i]).0 == i && *r.rest()[i].1 == v@[i]
@@ -43,7 +43,35 @@ fn enumerate_levels(v: &Vec<Level>) -> (r: SeqIter<(usize, &Level)>)
 uninterp spec fn optimized(runs: Seq<Run>) -> Seq<Run>;
 #[verifier::external_body] fn optimize_runs(runs: Vec<Run>) -> (r: Vec<Run>) ensures r@ == optimized(runs@) { unimplemented!() }
 
-struct Version { levels: Vec<Level> }
+#[derive(Copy, Clone, PartialEq, Eq, Structural)] enum TreeType { Standard, Blob }
+#[verifier::external_body] struct BlobFileList { p: u8 }
+#[verifier::external_body] struct FragmentationMap { p: u8 }
+type VersionId = u64;
+//@ FROM src/version/mod.rs :: - :: struct VersionInner
+struct VersionInner {
+    id: VersionId,
+
+    tree_type: TreeType,
+
+    levels: Vec<Level>,
+
+    blob_files: Arc<BlobFileList>,
+
+    gc_stats: Arc<FragmentationMap>,
+}
+//@ END
+//@ FROM src/version/mod.rs :: - :: struct Version
+struct Version {
+    inner: Arc<VersionInner>,
+}
+//@ END
+impl Version {
+    /// `self.iter_tables().filter(|x| ids.contains(&x.id())).cloned().collect::<Vec<_>>()`: the tables of this version named by `ids`
+    uninterp spec fn named(&self, ids: Seq<TableId>) -> Seq<Table>;
+    #[verifier::external_body] fn tables_named(&self, ids: &[TableId]) -> (r: Vec<Table>) ensures r@ == self.named(ids@) { unimplemented!() }
+}
+impl Clone for Table { #[verifier::external_body] fn clone(&self) -> (r: Self) ensures r == *self { unimplemented!() } }
+#[verifier::external_body] fn clone_tables(v: &Vec<Table>) -> (r: Vec<Table>) ensures r@ == v@ { unimplemented!() }
 
 /// level i of the merged version
 spec fn merged_level(old: Level, i: int, old_ids: Seq<TableId>, new_tables: Seq<Table>, dest_level: int) -> Seq<Run> {
@@ -55,22 +83,22 @@ spec fn merged_level(old: Level, i: int, old_ids: Seq<TableId>, new_tables: Seq<
 impl Version {
     /// wrapper (generated) around the statements of Version::with_merge that build the level list
     fn merged_levels(&self, old_ids: &[TableId], new_tables: &[Table], dest_level: usize) -> (levels: Vec<Level>)
-        ensures levels@.len() == self.levels@.len(),
-            forall|i: int| 0 <= i < self.levels@.len() ==> runs_of(#[trigger] levels@[i]) == merged_level(self.levels@[i], i, old_ids@, new_tables@, dest_level as int),
+        ensures levels@.len() == self.inner.levels@.len(),
+            forall|i: int| 0 <= i < self.inner.levels@.len() ==> runs_of(#[trigger] levels@[i]) == merged_level(self.inner.levels@[i], i, old_ids@, new_tables@, dest_level as int),
     {
 //@ FROM src/version/mod.rs :: impl Version :: fn with_merge :: STMTS `let mut levels = vec ! [ ] ;` .. `<let has_diff =` :: OBL C01.16, C07.8
 //@ SUBST `vec ! [ ]` ==> `Vec::new()`
-//@ SUBST `self . levels . iter ( ) . enumerate ( )` ==> `enumerate_levels(&self.levels)`
+//@ SUBST `self . levels . iter ( ) . enumerate ( )` ==> `enumerate_levels(&self.inner.levels)`
 //@ SUBST `level . runs . iter ( ) . map ( $1 ) . filter ( $2 ) . collect :: < Vec < _ > > ( )` ==> `runs_without(level, old_ids)`
 //@ SUBST `new_tables . to_vec ( )` ==> `to_vec(new_tables)`
 //@ SUBST `Level :: from_runs ( runs . into_iter ( ) . map ( Arc :: new ) . collect ( ) )` ==> `Level::from_owned_runs(runs)`
         let mut levels/*+*/: Vec<Level>/*-*/ = Vec::new();
 
-        for (level_idx, level) in /*+*/it:/*-*/ enumerate_levels(&self.levels)
-            /*+*/invariant it.seq().len() == self.levels@.len(),
-                forall|i: int| 0 <= i < self.levels@.len() ==> (#[trigger] it.seq()[i]).0 == i && *it.seq()[i].1 == self.levels@[i],
+        for (level_idx, level) in /*+*/it:/*-*/ enumerate_levels(&self.inner.levels)
+            /*+*/invariant it.seq().len() == self.inner.levels@.len(),
+                forall|i: int| 0 <= i < self.inner.levels@.len() ==> (#[trigger] it.seq()[i]).0 == i && *it.seq()[i].1 == self.inner.levels@[i],
                 levels@.len() == it.index@,
-                forall|i: int| 0 <= i < it.index@ ==> runs_of(#[trigger] levels@[i]) == merged_level(self.levels@[i], i, old_ids@, new_tables@, dest_level as int),/*-*/
+                forall|i: int| 0 <= i < it.index@ ==> runs_of(#[trigger] levels@[i]) == merged_level(self.inner.levels@[i], i, old_ids@, new_tables@, dest_level as int),/*-*/
         {
             let mut runs = runs_without(level, old_ids);
 
@@ -93,6 +121,113 @@ impl Version {
     }
 }
 //@ WRAPPER_END
+
+/// `level.runs.iter().map(|run| { clone; dropped_tables.extend(run.inner_mut().extract_if(.., |x| ids.contains(&x.metadata.id))); run }).filter(|x| !x.is_empty()).collect()`:
+/// the same removal as without_ids, the removed tables are appended to `dropped_tables`
+#[verifier::external_body]
+fn runs_without_collect(l: &Level, ids: &[TableId], dropped_tables: &mut Vec<Table>) -> (r: Vec<Run>) ensures r@ == without_ids(runs_of(*l), ids@) { unimplemented!() }
+/// `for level in &self.inner.levels`
+#[verifier::external_body]
+fn iter_levels(v: &Vec<Level>) -> (r: SeqIter<&Level>)
+    ensures r.rest().len() == v@.len(), forall|i: int| 0 <= i < v@.len() ==> *(#[trigger] r.rest()[i]) == v@[i]
+{ unimplemented!() }
+
+//@ WRAPPER_BEGIN
+impl Version {
+    /// wrapper (generated) around the statements of Version::with_dropped that build the level list
+    fn dropped_levels(&self, ids: &[TableId]) -> (levels: Vec<Level>)
+        ensures levels@.len() == self.inner.levels@.len(),
+            // every level is the old one minus the named tables - nothing else moves (dest_level -1: no level receives a run)
+            forall|i: int| 0 <= i < self.inner.levels@.len() ==> runs_of(#[trigger] levels@[i]) == merged_level(self.inner.levels@[i], i, ids@, Seq::<Table>::empty(), -1),
+    {
+//@ FROM src/version/mod.rs :: impl Version :: fn with_dropped :: STMTS `let mut levels = vec ! [ ] ;` .. `<let gc_stats =` :: OBL C15.7, C19.3
+//@ SUBST `vec ! [ ]` ==> `Vec::new()`
+//@ SUBST `for level in & self . levels` ==> `for level in iter_levels(&self.inner.levels)`
+//@ SUBST `level . runs . iter ( ) . map ( $1 ) . filter ( $2 ) . collect :: < Vec < _ > > ( )` ==> `runs_without_collect(level, ids, &mut dropped_tables)`
+//@ SUBST `Level :: from_runs ( runs . into_iter ( ) . map ( Arc :: new ) . collect ( ) )` ==> `Level::from_owned_runs(runs)`
+        let mut levels/*+*/: Vec<Level>/*-*/ = Vec::new();
+
+        let mut dropped_tables: Vec<Table> = Vec::new();
+
+        for level in /*+*/it:/*-*/ iter_levels(&self.inner.levels)
+            /*+*/invariant it.seq().len() == self.inner.levels@.len(),
+                forall|i: int| 0 <= i < self.inner.levels@.len() ==> *(#[trigger] it.seq()[i]) == self.inner.levels@[i],
+                levels@.len() == it.index@,
+                forall|i: int| 0 <= i < it.index@ ==> runs_of(#[trigger] levels@[i]) == merged_level(self.inner.levels@[i], i, ids@, Seq::<Table>::empty(), -1),/*-*/
+        {
+            let runs = runs_without_collect(level, ids, &mut dropped_tables);
+
+            let runs = optimize_runs(runs);
+
+            levels.push(Level::from_owned_runs(runs));
+        }
+        /*+*/levels/*-*/
+//@ END
+    }
+}
+//@ WRAPPER_END
+
+impl Version {
+//@ FROM src/version/mod.rs :: impl Version :: fn with_moved :: OBL C07.9, C01.17
+//@ SUBST `vec ! [ ]` ==> `Vec::new()`
+//@ SUBST `self . iter_tables ( ) . filter ( $1 ) . cloned ( ) . collect :: < Vec < _ > > ( )` ==> `self.tables_named(ids)`
+//@ SUBST `assert_eq ! ( $1 ) ;` ==> ``
+//@ SUBST `self . levels . iter ( ) . enumerate ( )` ==> `enumerate_levels(&self.inner.levels)`
+//@ SUBST `level . runs . iter ( ) . map ( $1 ) . filter ( $2 ) . collect :: < Vec < _ > > ( )` ==> `runs_without(level, ids)`
+//@ SUBST `affected_tables . clone ( )` ==> `clone_tables(&affected_tables)`
+//@ SUBST `Level :: from_runs ( runs . into_iter ( ) . map ( Arc :: new ) . collect ( ) )` ==> `Level::from_owned_runs(runs)`
+//@ SUBST `self . id` ==> `self.inner.id`
+//@ SUBST `self . tree_type` ==> `self.inner.tree_type`
+//@ SUBST `self . blob_files` ==> `self.inner.blob_files`
+//@ SUBST `self . gc_stats` ==> `self.inner.gc_stats`
+    fn with_moved(&self, ids: &[TableId], dest_level: usize) -> /*+*/(r:/*-*/ Self/*+*/)
+        requires self.inner.id < u64::MAX
+        ensures r.inner.id == self.inner.id + 1, r.inner.tree_type == self.inner.tree_type, r.inner.blob_files == self.inner.blob_files, r.inner.gc_stats == self.inner.gc_stats,
+            r.inner.levels@.len() == self.inner.levels@.len(),
+            // the moved tables leave every level and arrive as one run at the top of the destination level; nothing else moves
+            forall|i: int| 0 <= i < self.inner.levels@.len() ==> runs_of(#[trigger] r.inner.levels@[i]) == merged_level(self.inner.levels@[i], i, ids@, self.named(ids@), dest_level as int),/*-*/
+    {
+        let id = self.inner.id + 1;
+
+        let affected_tables = self.tables_named(ids);
+
+        let mut levels/*+*/: Vec<Level>/*-*/ = Vec::new();
+
+        for (level_idx, level) in /*+*/it:/*-*/ enumerate_levels(&self.inner.levels)
+            /*+*/invariant it.seq().len() == self.inner.levels@.len(), affected_tables@ == self.named(ids@),
+                forall|i: int| 0 <= i < self.inner.levels@.len() ==> (#[trigger] it.seq()[i]).0 == i && *it.seq()[i].1 == self.inner.levels@[i],
+                levels@.len() == it.index@,
+                forall|i: int| 0 <= i < it.index@ ==> runs_of(#[trigger] levels@[i]) == merged_level(self.inner.levels@[i], i, ids@, self.named(ids@), dest_level as int),/*-*/
+        {
+            let mut runs = runs_without(level, ids);
+
+            if level_idx == dest_level {
+                if let Some(run) = Run::new(clone_tables(&affected_tables)) {
+                    runs.insert(0, run);
+                }
+            }
+            /*+*/proof {
+                let kept = without_ids(runs_of(*level), ids@);
+                assert(runs@ =~= if level_idx == dest_level && self.named(ids@).len() > 0 { seq![Run { t: self.named(ids@) }] + kept } else { kept });
+            }/*-*/
+
+            let runs = optimize_runs(runs);
+
+            levels.push(Level::from_owned_runs(runs));
+        }
+
+        Self {
+            inner: Arc::new(VersionInner {
+                id,
+                tree_type: self.inner.tree_type,
+                levels,
+                blob_files: self.inner.blob_files.clone(),
+                gc_stats: self.inner.gc_stats.clone(),
+            }),
+        }
+    }
+//@ END
+}
 
 }
 fn main() {}
